@@ -61,7 +61,18 @@ def _run(ctx, ncases, nsteps):
     mjd.ctrl[:] = rng.normal(size=mjm.nu)
     nworld = int(rng.choice([2, 3, 4]))
     nb = int(rng.choice([nworld] + [k for k in (2,) if nworld % k == 0]))   # batch size: nworld or a divisor
-    for field in rng.choice(fields, size=min(len(fields), 6 if not ctx.thorough else 16), replace=False):
+    # candidates: float fields this model actually populates with non-zero values (a zero field is trivially slice-independent)
+    m0 = mjw.put_model(mjm)
+    cands = []
+    for f in fields:
+      o0, n0 = _get(m0, f)
+      a0 = getattr(o0, n0, None)
+      if a0 is not None and hasattr(a0, "numpy"):
+        b0 = a0.numpy()
+        if b0.dtype.kind == "f" and b0.size and b0.shape[0] == 1 and np.any(b0 != 0):
+          cands.append(f)
+    acc.hit(f"candidates:{len(cands)}")
+    for field in rng.choice(cands, size=min(len(cands), 8 if not ctx.thorough else 20), replace=False):
       m = mjw.put_model(mjm)
       obj, name = _get(m, field)
       arr = getattr(obj, name)
